@@ -57,8 +57,9 @@ def C01(tier):
     # stray futex wake-ups: a woken waiter that does not re-check its condition returns early
     jobs += [hq("mixed", 6 * m, first=3300, extra=["--futexstorm=3000"]), hq("hier", 6 * m, first=3400, extra=["--futexstorm=3000"])]
     jobs += [hq("mixed", 6 * m, first=3000, extra=["--sigstorm=2000"]), hq("pingpong", 6 * m, first=3100, extra=["--sigstorm=2000"]), hq("hier", 6 * m, first=3200, extra=["--sigstorm=2000"])]
+    # the library's own assertions (DISPATCH_DEBUG build) as one more oracle
+    jobs += [hq("default", 10 * m, first=2000, flavor="dbg", scale=60, timeout=900)]
     if tier == "thorough":
-        jobs += [hq("default", 10 * m, first=2000, flavor="dbg", scale=60, timeout=900)]
         for t in jobs:
             t.timeout = 1800
     floors = {
@@ -342,8 +343,8 @@ def C06(tier):
     jobs += [hj("h_suspend", 5 * m, first=8000, flavor="asan", scale=30, timeout=600)]
     # directed: concurrent queue suspended while its drainer retries with a pending barrier (F29)
     jobs += [hj("h_suspend", 16 * min(m, 2), first=0, mode="pbar"), hj("h_suspend", 8 * min(m, 2), first=100, mode="pbar", flavor="asan", timeout=600)]
+    jobs += [hj("h_suspend", 20 * m, first=9000, flavor="dbg", scale=60, timeout=1800)]
     if tier == "thorough":
-        jobs += [hj("h_suspend", 20 * m, first=9000, flavor="dbg", scale=60, timeout=1800)]
         for t in jobs:
             t.timeout = 1800
     floors = {
@@ -438,8 +439,8 @@ def C11(tier):
     jobs += [hj("h_timer", 3 * m, first=2000, ncpu=1, scale=50), hj("h_timer", 4 * m, first=2100, ncpu=2, scale=60), hj("h_timer", 4 * m, first=2200, ncpu=4)]
     jobs += [hj("h_timer", 3 * m, first=3000, flavor="asan", scale=50, timeout=600), hj("h_timer", 3 * m, first=3100, flavor="asan", scale=50, timeout=600)]
     jobs += [hj("h_timer", 4 * m, first=5000, extra=["--sigstorm=2000"])]
+    jobs += [hj("h_timer", (20 if tier == "thorough" else 6) * m, first=9000, flavor="dbg", timeout=1800)]
     if tier == "thorough":
-        jobs += [hj("h_timer", 20 * m, first=9000, flavor="dbg", timeout=1800)]
         for t in jobs:
             t.timeout = 1800
     floors = {
@@ -522,8 +523,8 @@ def C16(tier):
     jobs += [hj("h_duplex", 60 * m, first=10000, mode="sources"), hj("h_duplex", 40 * m, first=15000, mode="sources", ncpu=4),
              hj("h_duplex", 30 * m, first=16000, mode="sources", flavor="asan", scale=50, timeout=600),
              hj("h_duplex", 40 * m, first=17000, mode="sources", extra=["--sigstorm=2000"])]
+    jobs += [hj("h_source", (20 if tier == "thorough" else 8) * m, first=9000, mode="cancel", flavor="dbg", timeout=1800)]
     if tier == "thorough":
-        jobs += [hj("h_source", 20 * m, first=9000, mode="cancel", flavor="dbg", timeout=1800)]
         for t in jobs:
             t.timeout = 1800
     floors = {"cancel_cases": 5000 * (1 if tier == "quick" else 8), "epoll_unregistration_verified": 2000,
@@ -571,8 +572,8 @@ def C17(tier):
     for j in jobs:
         if j.flavor == "asan" and j.harness in ("h_life", "h_data", "h_queue", "h_iobad"):   # the other harnesses keep per-case records alive on purpose
             j.env.update({"ASAN_OPTIONS": "abort_on_error=1:detect_leaks=1:halt_on_error=1:allocator_may_return_null=1:detect_stack_use_after_return=1", "LSAN_OPTIONS": "exitcode=23:report_objects=0"})
+    jobs += [hj("h_life", 20 * m, first=9000, flavor="dbg", timeout=1800)]
     if tier == "thorough":
-        jobs += [hj("h_life", 20 * m, first=9000, flavor="dbg", timeout=1800)]
         for t in jobs:
             t.timeout = 1800
     floors = {
